@@ -539,7 +539,7 @@ def build_frontend(ctx, T, pegpeg, opts):
     d = L.scratch('fe-')
     with open(os.path.join(d, 'peg.peg.go'), 'w') as fh:
         fh.write(x['go'])
-    for f in ('dump', 'irx', 'pegx'):
+    for f in ('dump', 'irx', 'pegx', 'casex'):
         shutil.copy(os.path.join(L.VERIF, 'harness', 'pegx', f + '.go.txt'), os.path.join(d, f + '.go'))
     with open(os.path.join(d, 'go.mod'), 'w') as fh:
         fh.write('module pegx\ngo 1.25\nrequire github.com/pointlander/peg v0.0.0\nreplace github.com/pointlander/peg => %s\n' % L.REPO)
